@@ -554,10 +554,44 @@ impl StatsData {
     }
 }
 
+/// The allocation figures of `stats` as the documented formatting functions
+/// render them (code points; decimal byte units), for tying each printed cell
+/// to the figure it shows: `[max alloc, grow, shrink, alloc, dealloc]`, each
+/// `{count: [4 columns], size: [4 columns]}`.
+fn alloc_texts(stats: &Stats) -> String {
+    use crate::{counter::BytesFormat, util::fmt::{format_bytes, format_f64}};
+
+    let cps = |s: String| {
+        let v: Vec<String> = s.chars().map(|c| (c as u32).to_string()).collect();
+        format!("[{}]", v.join(","))
+    };
+    let row = |s: &crate::stats::StatsSet<f64>, bytes: bool| {
+        let f = |v: f64| {
+            cps(if bytes {
+                format_bytes(v, 4, BytesFormat::Decimal)
+            } else {
+                format_f64(v, 4)
+            })
+        };
+        format!("[{},{},{},{}]", f(s.fastest), f(s.slowest), f(s.median), f(s.mean))
+    };
+    let block = |count: &crate::stats::StatsSet<f64>, size: &crate::stats::StatsSet<f64>| {
+        format!("{{\"count\":{},\"size\":{}}}", row(count, false), row(size, true))
+    };
+    let mut blocks = vec![block(&stats.max_alloc.count, &stats.max_alloc.size)];
+    for op in AllocOp::ALL {
+        let t = stats.alloc_tallies.get(op);
+        blocks.push(block(&t.count, &t.size));
+    }
+    format!("[{}]", blocks.join(","))
+}
+
 /// Logs the statistics the runner is about to print for a leaf.
 pub(crate) fn leaf_stats_event(stats: &Stats) {
     super::event(
-        super::Ev::new("leaf_stats").raw("stats", &stats_data(stats).json()),
+        super::Ev::new("leaf_stats")
+            .raw("alloc_text", &alloc_texts(stats))
+            .raw("stats", &stats_data(stats).json()),
     );
 }
 
